@@ -310,9 +310,13 @@ func checkLadders(c *Ctx, r *Rec, cr *collRoles, fd *ast.FuncDecl, rank bool, ru
 		}
 	}
 	// delegates receive (first, second) in order
-	mir := newMirror(info, fd, params[0], params[1])
+	mir := newMirrorC(c, info, fd, params[0], params[1], 0)
 	for _, cl := range calls {
 		a0, a1 := cl.call.Args[0], cl.call.Args[1]
+		if mir.side(a0) < 0 || mir.side(a1) < 0 {
+			unknownPaths++ // operands computed from names the rule cannot relate to first/second
+			continue
+		}
 		if !mir.mirrorEq(a0, a1) || mir.side(a0) != 0 {
 			viol = append(viol, fmt.Sprintf("the delegate call %s(%s, %s) at %s does not pass mirror-image operands as (first, second)", exprStr(cl.call.Fun), exprStr(a0), exprStr(a1), c.pos(cl.call.Pos())))
 		}
@@ -472,6 +476,17 @@ func pureLadderHelper(c *Ctx, info *types.Info, fn *types.Func) bool {
 		}
 		return true
 	})
+	if pure && !tests {
+		// a ladder over truth values handed in by the caller: missing(firstIsNil, secondIsNil)
+		sig := fn.Type().(*types.Signature)
+		allBool := sig.Params().Len() > 0
+		for i := 0; i < sig.Params().Len(); i++ {
+			if bt, ok := sig.Params().At(i).Type().Underlying().(*types.Basic); !ok || bt.Kind() != types.Bool {
+				allBool = false
+			}
+		}
+		return allBool
+	}
 	return pure && tests
 }
 
